@@ -25,6 +25,26 @@ fn kf10_flatten_completes_while_a_late_greeting_inner_is_pending() {
     assert!(l[t..].iter().any(|x| x == "sink<-D1"), "expected data after the Terminate (finding KF-10): {l:?}");
 }
 
+/// KF-10 under C05: the pending first inner fails after the premature completion: its Error reaches a sink that was already
+/// told Terminate (the failure is in effect turned into a normal completion).
+#[test]
+fn kf10_flatten_error_of_the_pending_inner_arrives_after_the_completion() {
+    let log = new_log();
+    let outer = Puppet::<Source<u32>>::new("outer", &log, true);
+    let inner = Puppet::<u32>::new("i", &log, false);
+    let out: Arc<Source<u32>> = Arc::new(flatten(outer.source()));
+    let s = Probe::<u32>::new("sink", &log);
+    subscribe(&out, s.sink());
+    outer.data(inner.source());
+    outer.end();
+    inner.greet();
+    inner.error();
+    let l = log_of(&log);
+    let t = l.iter().position(|x| x == "sink<-T").expect("early completion (finding KF-10)");
+    let e = l.iter().position(|x| x == "sink<-E");
+    assert!(e.map_or(true, |e| e > t), "the error is not delivered before the completion (finding KF-10 / C05): {l:?}");
+}
+
 use callbag::{combine, concat, share, Message};
 
 fn has(l: &[String], x: &str) -> bool {
